@@ -5,5 +5,7 @@ cd "$(dirname "$0")/mc" || exit 2
 cp -f /repo/go.sum go.sum
 mkdir -p ../bin ../evidence ../replays
 go build -tags verif -o ../bin/mc ./cmd/mc || exit 2
+# the race-instrumented standard library is compiled once here (C17's race pass builds bin/mc-race on every run)
+go build -race -tags verif -o ../bin/mc-race ./cmd/mc || echo "note: -race build failed; C17's race pass will be skipped"
 ../bin/mc selfcheck || exit 2
 echo "setup ok"
